@@ -5,3 +5,4 @@ pub mod gen;
 pub use crate::bridge::*;
 pub use crate::core::*;
 pub mod fl;
+pub mod ball;
